@@ -126,6 +126,7 @@ func (em *emitter) emitNodes(nodes []ast.Node) {
 				em.emitNodes(node.Body)
 				em.rangeLabels = em.rangeLabels[:len(em.rangeLabels)-1]
 				em.fb.setLabelAddr(forPost)
+				em.emitLoopVarsCopy(node)
 				if node.Post != nil {
 					em.emitNodes([]ast.Node{node.Post})
 				}
@@ -141,6 +142,7 @@ func (em *emitter) emitNodes(nodes []ast.Node) {
 				em.emitNodes(node.Body)
 				em.rangeLabels = em.rangeLabels[:len(em.rangeLabels)-1]
 				em.fb.setLabelAddr(forPost)
+				em.emitLoopVarsCopy(node)
 				if node.Post != nil {
 					em.emitNodes([]ast.Node{node.Post})
 				}
@@ -1122,6 +1124,35 @@ func (em *emitter) emitTypeSwitch(node *ast.TypeSwitch) {
 
 }
 
+// emitLoopVarsCopy emits the code that, at the end of an iteration of a for
+// statement and before its post statement, makes a fresh copy of the
+// variables declared by the init statement: each iteration has its own copy
+// of these variables. Only a variable captured by a closure, that is held in
+// an indirect register, needs to be copied.
+func (em *emitter) emitLoopVarsCopy(node *ast.For) {
+	init, ok := node.Init.(*ast.Assignment)
+	if !ok || init.Type != ast.AssignmentDeclaration {
+		return
+	}
+	for _, lh := range init.Lhs {
+		ident, ok := lh.(*ast.Identifier)
+		if !ok || isBlankIdentifier(ident) || !em.varStore.mustBeDeclaredAsIndirect(ident) {
+			continue
+		}
+		reg := em.fb.scopeLookup(ident.Name)
+		if reg >= 0 {
+			continue
+		}
+		typ := em.typ(ident)
+		em.fb.enterStack()
+		tmp := em.fb.newRegister(typ.Kind())
+		em.changeRegister(false, reg, tmp, typ, typ)
+		em.fb.emitNew(typ, -reg)
+		em.changeRegister(false, tmp, reg, typ, typ)
+		em.fb.exitStack()
+	}
+}
+
 // emitForRange emits a for range statement.
 func (em *emitter) emitForRange(node *ast.ForRange) {
 
@@ -1199,10 +1230,14 @@ func (em *emitter) emitForRange(node *ast.ForRange) {
 	em.fb.emitGoto(endRange)
 	em.fb.enterScope()
 
+	// Each iteration has its own copy of the variables: a variable captured
+	// by a closure is allocated at every iteration.
 	if indirectIndex != 0 {
+		em.fb.emitNew(indexType, -indirectIndex)
 		em.changeRegister(false, index, indirectIndex, indexType, indexType)
 	}
 	if indirectElem != 0 {
+		em.fb.emitNew(elemType, -indirectElem)
 		em.changeRegister(false, elem, indirectElem, elemType, elemType)
 	}
 
